@@ -133,7 +133,7 @@ def read_ndjson(path):
 
 # ------------------------------------------------------------------ drivers
 
-def run_driver(binary, cases, workdir, tag="cases", trace=False, shards=None, timeout=1800, env=None):
+def run_driver(binary, cases, workdir, tag="cases", trace=False, shards=None, timeout=1800, env=None, supervise=True):
     """Runs vdrive-style binaries over `cases` sharded across processes.
     Returns (observations by id, list of trace paths)."""
     shards = shards or min(NCPU, max(1, len(cases) // 50))
@@ -149,6 +149,8 @@ def run_driver(binary, cases, workdir, tag="cases", trace=False, shards=None, ti
             cmd += ["--trace", tpath]
             traces.append(tpath)
         cmd += ["--shard", f"{k}/{shards}"]
+        if supervise:
+            cmd.append("--supervise")
         e = dict(os.environ)
         e.setdefault("ASAN_OPTIONS", "detect_leaks=0:detect_stack_use_after_return=1:abort_on_error=1:handle_abort=1")
         e.setdefault("UBSAN_OPTIONS", "halt_on_error=1:abort_on_error=1:print_stacktrace=1")
